@@ -162,7 +162,12 @@ def taint(cfg, crate, rep):
                 for x in sv.fields.values():
                     pl |= places(x)
                 bad = [p for p in pl if p.split(".")[0].split("#")[0] in tainted]
-                if bad and not (sv.variant or "").startswith("key_pair::KeyPairKind::"):
+                # a crate-private carrier type that nothing can render (no fmt impl of any kind, not nameable from outside the
+                # crate) is as inert as a tuple
+                ad_ = crate.adts.get(sv.adt) or {}
+                inert = bool(ad_) and not ad_.get("reachable") and ad_.get("vis") != "pub" \
+                    and not [im for im in crate.impls if im.get("self_adt") == sv.adt and (im.get("trait") or "").startswith(("std::fmt::", "core::fmt::", "std::string::ToString", "serde::"))]
+                if bad and not (sv.variant or "").startswith("key_pair::KeyPairKind::") and not inert:
                     rep.fail("C19.taint", "%s|%s|copied-into|%s" % (cfg, fn, sv.adt), "loader input copied into another value", found=bad, sp=node.get("sp"))
     rep.floor("C19.taint", "calls receiving loader input (%s)" % cfg, n_calls, 12)
 
